@@ -35,6 +35,10 @@ func runC17(c *an.Ctx) {
 	// reported without error (its error dropped, cleared, or replaced by a successful rollback's) makes Kill repeat the
 	// same step for ever - no signal is sent and no terminal status follows
 	c.As(map[string]string{"R16c": "R17l", "R16f": "R17k", "R16d": "R17m"}, func() { r16cd(c) })
+	// round 7
+	r17n(c)
+	r17o(c)
+	r17p(c)
 }
 
 const exPkg = "executor/executable"
